@@ -36,6 +36,19 @@ type cfgEv struct {
 	Sp   [2]int `json:"sp"` // the source point passed to Draw: the image pixel aligned with the rectangle's corner
 }
 
+type pixrEv struct {
+	Ev     string  `json:"ev"`
+	Vb     []F     `json:"vb"`
+	Rect   [4]int  `json:"rect"`
+	NReg   []F     `json:"nreg"`
+	Shape  int     `json:"shape"`
+	Spread int     `json:"spread"`
+	Stops  []stopJ `json:"stops"`
+	X      int     `json:"x"`
+	Y      int     `json:"y"`
+	Got    [4]int  `json:"got"`
+}
+
 func init() { register("drive-c15", driveC15) }
 
 type gradCase struct {
@@ -185,6 +198,17 @@ func driveC15(args []string) error {
 			}
 			stats["direct"]++
 		}
+		// (A') the same gradient assembled by hand from the public helpers: the ranges are built by two AppendRanges
+		// calls (the second continues from the first's final stop)
+		if len(st) >= 3 {
+			k := 2 + rng.Intn(len(st)-2)
+			h := render.Gradient{Shape: render.Shape(gcase.shape), Spread: render.Spread(gcase.spread), Pix2Grad: aff,
+				Ranges: render.AppendRanges(render.AppendRanges(nil, st[:k]), st[k:]), First: st[0].RGBA64, Last: st[len(st)-1].RGBA64}
+			for _, p := range probePixels(rng, gcase.m)[:120] {
+				emitPix("Gradient.AppendRanges", &h, &h, gcase.stops, p[0], p[1])
+			}
+			stats["appendranges"]++
+		}
 		// (B) through the registers of a real Renderer; the image handed to Draw is probed
 		cfgs := latticeCfgs()
 		// more power-of-two scales that differ in x and y (the composed matrix is compared exactly for those)
@@ -195,6 +219,9 @@ func driveC15(args []string) error {
 			rendCfg{[4]float32{-32, -32, 32, 32}, image.Rect(0, 0, 32, 16)},
 			rendCfg{[4]float32{-16, -32, 16, 32}, image.Rect(5, 5, 5+128, 5+64)})
 		cfg := cfgs[rng.Intn(len(cfgs))]
+		if i%8 == 3 {
+			cfg = cfgs[i/8%3] // single-colour gradients: power-of-two scales in both axes, so that every pixel is decided exactly
+		}
 		rr := &RecRaster{}
 		var z render.Renderer
 		z.SetRasterizer(rr, cfg.rect)
@@ -227,6 +254,22 @@ func driveC15(args []string) error {
 				}
 				gc, ok := c.img.(raster.GradientConfig)
 				if !ok {
+					// whatever image the Renderer chose to hand to Draw, its pixels are the gradient's: the expected
+					// configuration comes from the registers, the viewBox and the rectangle ("pixr" events)
+					if c.img != nil {
+						pr := pixrEv{Ev: "pixr", Vb: fs(cfg.vb[0], cfg.vb[1], cfg.vb[2], cfg.vb[3]), Rect: [4]int{rc.Min.X, rc.Min.Y, rc.Max.X, rc.Max.Y},
+							Shape: gcase.shape, Spread: gcase.spread, Stops: gcase.stops}
+						for _, v := range gcase.m {
+							pr.NReg = append(pr.NReg, f32j(v))
+						}
+						for _, p := range probePixels(rng, gcase.m)[:150] {
+							r, g, b, a := c.img.At(p[0], p[1]).RGBA()
+							q := pr
+							q.X, q.Y, q.Got = p[0], p[1], [4]int{int(r), int(g), int(b), int(a)}
+							sh.Next().Emit(q)
+							stats["pixr"]++
+						}
+					}
 					continue
 				}
 				stats["rendered"]++
